@@ -49,8 +49,16 @@ def check_group(ex, key, recs, rnd, rep, stats):
                     break
         try:
             rule = obj.rule(S)
+            # an object built for ANOTHER ratio (and order) whose public attributes are then set to this configuration is this configuration
+            other = ex.Richardson(step_ratio=3.5 if ratio != 3.5 else 2.5, step=step, order=order + 1, num_terms=numterms)
+            other.step_ratio, other.order = ratio, order
+            rule_re = other.rule(S)
         except Exception as ex_:
             rep.violation('rule-raises:' + name, dict(case=name), 'rule(%d) raised %r' % (S, ex_))
+            continue
+        if np.shape(rule_re) != np.shape(rule) or not np.array_equal(np.asarray(rule_re), np.asarray(rule), equal_nan=True):
+            rep.violation('reassigned:' + name, dict(case=name, got=np.asarray(rule_re).tolist(), want=np.asarray(rule).tolist()),
+                          '%s: an object whose step_ratio / order attributes were re-assigned to this configuration has the rule %s, a new object %s' % (name, np.asarray(rule_re).tolist(), np.asarray(rule).tolist()))
             continue
         stats['rules'] += 1
         if np.shape(rule) != w.shape:
@@ -69,6 +77,7 @@ def check_group(ex, key, recs, rnd, rep, stats):
             new, err, hh = obj(cols, hcol)
             single, err1, _ = obj(seq[:, None], steps[:, None])
             again, _, _ = obj(cols, hcol)                 # the same arrays a second time (and below: their columns, as views)
+            negst, _, _ = obj(cols, -hcol)                # steps approaching from below (negative h): the extrapolated values are the same
             colv, _, _ = obj(cols[:, 1], hcol[:, 1])
         except Exception as ex_:
             rep.violation('call-raises:' + name, dict(case=name), '%s: __call__ raised %r' % (name, ex_))
@@ -76,6 +85,9 @@ def check_group(ex, key, recs, rnd, rep, stats):
         stats['calls'] += 1
         if not (np.array_equal(cols, cols0) and np.array_equal(seq, seq0)):
             rep.violation('inputs-modified:' + name, dict(case=name), '%s: __call__ changed the sequence array it was given' % name)
+            continue
+        if not np.array_equal(np.asarray(negst), np.asarray(new), equal_nan=True):
+            rep.violation('negative-steps:' + name, dict(case=name, got=np.asarray(negst)[:, 0].tolist(), want=np.asarray(new)[:, 0].tolist()), '%s: with the steps given as negative numbers the extrapolated values are %s, with positive steps %s' % (name, np.asarray(negst)[:, 0].tolist(), np.asarray(new)[:, 0].tolist()))
             continue
         if not (np.array_equal(again, new, equal_nan=True) and np.shape(colv) == (np.shape(new)[0],) and np.array_equal(np.asarray(colv), new[:, 1], equal_nan=True)):
             rep.violation('repeatable:' + name, dict(case=name), '%s: extrapolating the same array again (or one of its columns as a view) gives different numbers' % name)
